@@ -3,10 +3,10 @@
 package c14
 
 import (
-	"strings"
 	"bytes"
 	"fmt"
 	"sort"
+	"strings"
 
 	"verifharness/core"
 	"verifharness/lsharness"
